@@ -36,7 +36,26 @@ def gen_wire_ws(rng: random.Random, directed: float = 0.3, **kw) -> dict:
     ws = G.gen_workspace(rng, **o)
     if rng.random() < directed:
         add_directed_offset_def(rng, ws)
+    if rng.random() < 0.25:
+        # one array of primitives at the 8 -> 16 bit length-prefix boundary (elements are actually sent / torn / flipped)
+        sites = [it[1] for r in ws["roots"] for d in r["defs"] for s in d["secs"] for it in s["items"]
+                 if it[0] == "f" and it[1][0] in ("var", "arr") and it[1][1][0] in ("bool", "u", "i", "byte")]
+        if sites:
+            rng.choice(sites)[2] = rng.choice([255, 256, 257, 300])
+            _refit_extents(ws)
     return ws
+
+
+def _refit_extents(ws: dict) -> None:
+    """After a capacity was enlarged: delimited sections keep at least their longest representation (in dependency order)."""
+    alld = [d for r in ws["roots"] for d in r["defs"]]
+    for d in alld:
+        for si, s in enumerate(d["secs"]):
+            if isinstance(s.get("seal"), int) and not isinstance(s.get("seal"), bool):
+                old = s["seal"]
+                s["seal"] = "sealed"
+                inner = T.Sec(T.Resolver({T.def_key(x): x for x in alld}), d, si).inner_extent
+                s["seal"] = max(old, inner)
 
 
 def permuted_revision(ws: dict, seed: int):
